@@ -136,6 +136,8 @@ type stubManager struct {
 	handlers map[xdsresource.ResourceType][]xdsresource.XDSUpdateHandler
 	gets     []stubKey
 	nils     map[stubKey]bool
+	// afterGet: once the key has been served, its resource is replaced by this one (an update that lands right after a read)
+	afterGet map[stubKey]interface{}
 }
 
 // nilnil makes Get return (nil, nil) for k (a shape the real manager must never produce).
@@ -163,6 +165,10 @@ func (s *stubManager) Get(ctx context.Context, rt xdsresource.ResourceType, name
 		return nil, nil
 	}
 	if r, ok := s.res[k]; ok {
+		if nr, swap := s.afterGet[k]; swap {
+			s.res[k] = nr
+			delete(s.afterGet, k)
+		}
 		return r, nil
 	}
 	return nil, fmt.Errorf("[XDS] manager, fetch %s resource[%s] timeout", xdsresource.ResourceTypeToName[rt], name)
